@@ -10,15 +10,15 @@ from hypothesis import strategies as st
 
 from ..core import Clause, Violation, Discard, REPO
 
-RULE = ("Cases: call histories over the 19-action alphabet {set_up(level in None/WARNING/DEBUG), set_level(CRITICAL/WARNING/"
+RULE = ("Cases: call histories over the 21-action alphabet {set_up(level in None/WARNING/DEBUG), set_level(CRITICAL/WARNING/"
         "INFO/DEBUG), disable, enable, sift(verbose in None/CRITICAL/WARNING/INFO/DEBUG) that returns, the same call made to "
-        "raise (3-D input)}: exhaustively every history of length 1..3 (quick) / 1..4 (thorough) from both the never-set-up "
+        "raise (3-D input), a sift that cannot converge within its iteration limit (verbose None / DEBUG)}: exhaustively every history of length 1..3 (quick) / 1..4 (thorough) from both the never-set-up "
         "and the set-up state; Hypothesis histories up to length 12 that also use set_up(log_file=tmp), mask_sift, "
         "ensemble_sift, complete_ensemble_sift and calls passing `verbose` positionally; and a sample of random histories replayed in genuinely fresh "
         "interpreters (validates the in-process re-creation of the never-set-up state). Oracle: a model of the console "
         "level (None before set-up; INFO after set_up(); the last explicit level otherwise); after every step get_level() "
         "must equal the model; a call's only exception is the one it was built to raise; every returning call's output is "
-        "np.array_equal to the baseline computed with logging untouched. Non-trivial: a history with >= 1 verbosity "
+        "np.array_equal to the baseline computed with logging untouched, and a call that fails with logging untouched (non-convergence) fails with the same error in every logger state. Non-trivial: a history with >= 1 verbosity "
         "override after >= 1 level change (set_up or set_level).")
 ASSUMPTIONS = ["the never-set-up state is re-created in-process by restoring the import-time logger configuration "
                "(validated against fresh interpreters by clause C20.fresh)",
@@ -29,7 +29,8 @@ ALPHABET = ([('set_up', l) for l in (None, 'WARNING', 'DEBUG')] +
             [('set_level', l) for l in ('CRITICAL', 'WARNING', 'INFO', 'DEBUG')] +
             [('disable',), ('enable',)] +
             [('call', v, False, 'sift') for v in (None, 'CRITICAL', 'WARNING', 'INFO', 'DEBUG')] +
-            [('call', v, True, 'sift') for v in (None, 'CRITICAL', 'WARNING', 'INFO', 'DEBUG')])
+            [('call', v, True, 'sift') for v in (None, 'CRITICAL', 'WARNING', 'INFO', 'DEBUG')] +
+            [('call', v, False, 'sift-noconv') for v in (None, 'DEBUG')])
 # beyond the 19-action alphabet (random histories only): the same calls with `verbose` given positionally
 POSITIONAL = [('call', v, r, 'sift-positional') for v in ('CRITICAL', 'WARNING', 'INFO', 'DEBUG') for r in (False, True)]
 
@@ -80,6 +81,11 @@ class CountingStream:
 
 
 def variant_call(emd, variant, x, **kw):
+    if variant.endswith('-noconv'):
+        # an extraction that cannot meet its stopping rule within the iteration limit: whatever the outcome of this call is
+        # with logging never set up (the documented convergence error), it is the outcome in every logger state
+        kw = dict(kw, imf_opts={'max_iters': 3, 'sd_thresh': 1e-6})
+        variant = variant[:-len('-noconv')]
     if variant == 'sift':
         return emd.sift.sift(x, max_imfs=2, **kw)
     if variant == 'sift-positional':
@@ -96,7 +102,10 @@ def baseline(emd, variant):
     key = 'base-' + variant
     if key not in _state:
         reset_logging()
-        _state[key] = np.asarray(variant_call(emd, variant, signal48()))
+        try:
+            _state[key] = np.asarray(variant_call(emd, variant, signal48()))
+        except Exception as e:
+            _state[key] = ('raises', type(e).__name__)
     return _state[key]
 
 
@@ -152,11 +161,23 @@ def run_history(emd, start, hist, rec=None, tmpdir=None):
                     nontrivial = True
                 n0 = counter.n
                 try:
-                    out = variant_call(emd, variant, arg, **kw)
+                    if isinstance(bases[variant], tuple):
+                        # the call fails when logging was never set up: it must fail the same way now
+                        try:
+                            variant_call(emd, variant, arg, **kw)
+                            outcome = 'returned'
+                        except Exception as e:
+                            outcome = type(e).__name__
+                        if outcome != bases[variant][1]:
+                            raise Violation('C20/outcome-depends-on-logger-state/%s/%s' % (variant, where),
+                                            '%s with logging never set up, %s in history %r step %d' % (bases[variant][1], outcome, hist, i))
+                        out = None
+                    else:
+                        out = variant_call(emd, variant, arg, **kw)
                     if raises:
                         raise Violation('C20/raising-call-returned', '')
-                    out = np.asarray(out)
-                    if not np.array_equal(out, bases[variant]):
+                    out = np.asarray(out) if out is not None else bases[variant]
+                    if not isinstance(out, tuple) and not np.array_equal(out, bases[variant]):
                         raise Violation('C20/result-depends-on-logger-state/%s/%s' % (variant, where),
                                         'history %r step %d' % (hist, i))
                 except Violation:
@@ -211,7 +232,9 @@ OPS = st.one_of(
     st.sampled_from(ALPHABET + POSITIONAL),
     st.tuples(st.just('set_up'), st.sampled_from([None, 'WARNING', 'DEBUG', 'INFO']), st.just(True)),
     st.tuples(st.just('call'), st.sampled_from([None, 'CRITICAL', 'WARNING', 'INFO', 'DEBUG']), st.booleans(),
-              st.sampled_from(['sift', 'mask_sift', 'ensemble_sift', 'complete_ensemble_sift'])))
+              st.sampled_from(['sift', 'mask_sift', 'ensemble_sift', 'complete_ensemble_sift'])),
+    st.tuples(st.just('call'), st.sampled_from([None, 'CRITICAL', 'INFO', 'DEBUG']), st.just(False),
+              st.sampled_from(['sift-noconv', 'mask_sift-noconv', 'ensemble_sift-noconv'])))
 
 random_strategy = st.fixed_dictionaries({'start': st.sampled_from(['fresh', 'setup']),
                                          'hist': st.lists(OPS, min_size=1, max_size=12)})
